@@ -258,6 +258,39 @@ pub fn corr_smh(ctx: &mut Ctx) {
             }
         }
     }
+    // long streams on ONE instance (> 2^16 + 2^8 items): counters, ranks or generation stamps kept in a narrow
+    // integer show only then. Implementation only: three orders of the same items on fresh instances.
+    for (m, n) in if ctx.quick() { vec![(8usize, 65_536usize + 300)] } else { vec![(8, 65_536 + 300), (64, 140_000), (3, 70_000)] } {
+        ctx.begin_case(&format!("long stream m={} n={}", m, n));
+        ctx.mark_nontrivial();
+        ctx.count("long stream (> 2^16 items on one instance)");
+        let mut rng = ctx.rng.fork();
+        let items = gen_stream(&mut rng, n);
+        let mut rev = items.clone(); rev.reverse();
+        let mut rot = items.clone(); rot.rotate_left(65_536);
+        let mut dup = items.clone(); dup.extend_from_slice(&items[..300]);
+        for (name, o) in [("reversed", &rev), ("rotated by 2^16", &rot), ("first 300 items repeated at the end", &dup)] {
+            if smh_sketch_f64(m, o) != smh_sketch_f64(m, &items) {
+                ctx.oracle_failure(serde_json::json!({"kind":"impl_violates_property","what":"SuperMinHash<f64> sketch of a long stream changes under reordering/repetition","m":m,"n":n,"order":name}));
+            }
+            if smh_sketch_f32(m, o) != smh_sketch_f32(m, &items) {
+                ctx.oracle_failure(serde_json::json!({"kind":"impl_violates_property","what":"SuperMinHash<f32> sketch of a long stream changes under reordering/repetition","m":m,"n":n,"order":name}));
+            }
+            if smh2_sketch(m, o) != smh2_sketch(m, &items) {
+                ctx.oracle_failure(serde_json::json!({"kind":"impl_violates_property","what":"SuperMinHash2 sketch of a long stream changes under reordering/repetition","m":m,"n":n,"order":name}));
+            }
+            let ssk = |v: &[u64]| { let mut s = crate::ssk::new16((1.2, m as u64, 20.0, 65534)); for x in v { s.sketch(x).unwrap(); } s.get_signature().clone() };
+            if ssk(o) != ssk(&items) {
+                ctx.oracle_failure(serde_json::json!({"kind":"impl_violates_property","what":"SetSketch of a long stream changes under reordering/repetition","m":m,"n":n,"order":name}));
+            }
+            for kind in 0..4 {
+                let dn = |v: &[u64]| { let mut d = crate::dens::D::new(kind, m); for x in v { d.sketch(x); } d.end_sketch(); d.dump() };
+                if dn(o) != dn(&items) {
+                    ctx.oracle_failure(serde_json::json!({"kind":"impl_violates_property","what":"densified sketch of a long stream changes under reordering/repetition","m":m,"n":n,"order":name,"kind":kind}));
+                }
+            }
+        }
+    }
     // constructor edge
     ctx.begin_case("smh/smh2 size 0");
     let r = catch(|| { let _ = SuperMinHash::<f64, u64, FnvHasher>::new(0, BuildHasherDefault::<FnvHasher>::default()); });
